@@ -434,6 +434,18 @@ def family_timer():
         cfg = dict(version=v, retryMax=1, leaders=[1, 1], nbrokers=1, maxReqSize=900, maxMsgBytes=500, flushFreqMs=60)
         steps = [{"op": "submit", "id": i, "part": i % 2, "size": 300} for i in (1, 2, 3, 4)] + [{"op": "must_outcomes", "n": 4, "ms": 2500}, {"op": "close"}]
         out.append(sc("timer-reqsize-%s" % v, "timer", cfg, steps))
+        # the same bursts while a request is in flight on a slow broker: the full buffer cannot leave before the message
+        # one past the limit arrives, so the overflow path (waitForSpace / rollOver) is taken deterministically
+        pl = {"1": {"delayMs": 150}}
+        for maxmsgs in (2, 3):
+            cfg = dict(version=v, retryMax=1, leaders=[1], nbrokers=1, flushMaxMsgs=maxmsgs, flushFreqMs=40)
+            steps = submits([(1, 0)]) + [{"op": "must_req", "n": 1, "ms": 2500}] + submits([(i, 0) for i in range(2, maxmsgs + 3)]) + \
+                [{"op": "must_outcomes", "n": maxmsgs + 2, "ms": 3000}, {"op": "close"}]
+            out.append(sc("timer-inflight-maxmsgs%d-%s" % (maxmsgs, v), "timer", cfg, steps, pl))
+        cfg = dict(version=v, retryMax=1, leaders=[1], nbrokers=1, maxMsgBytes=1000, flushFreqMs=40)
+        steps = [{"op": "submit", "id": 1, "part": 0, "size": 50}, {"op": "must_req", "n": 1, "ms": 2500}] + \
+            [{"op": "submit", "id": i, "part": 0, "size": 400} for i in (2, 3, 4)] + [{"op": "must_outcomes", "n": 4, "ms": 3000}, {"op": "close"}]
+        out.append(sc("timer-inflight-bytes-%s" % v, "timer", cfg, steps, pl))
     return out
 
 
